@@ -319,6 +319,19 @@ def gen_spec(rng: random.Random, feat=None):
     # ---- inputs ------------------------------------------------------------------------------------------------
     spec['ns_twin_files'] = spec_twin_files
     add_inputs(rng, spec, fnames, mounts, feat, extra_mounts)
+    if feat.get('meta_inheritance', True):
+        # a task whose Meta class subclasses another task's Meta and relies on the inherited declarations (inputs, parameters, group, data class)
+        taken = {snake(t_['cls']) for m_ in modules for t_ in m_['tasks']} | {t_.get('meta_name') for m_ in modules for t_ in m_['tasks']}
+        for m_ in modules:
+            cands_ = [t_ for t_ in m_['tasks'] if not t_.get('abstract') and not t_.get('meta_name')]
+            if cands_ and rng.random() < 0.15:
+                a_ = rng.choice(cands_)
+                b_ = copy.deepcopy(a_)
+                b_['cls'] = a_['cls'] + 'Strict'
+                b_['meta_base'] = a_['cls']
+                if snake(b_['cls']) not in taken:
+                    m_['tasks'].insert(m_['tasks'].index(a_) + 1, b_)
+                    taken.add(snake(b_['cls']))
     spec['fnames'] = fnames
     spec['extra_mounts'] = extra_mounts
     spec['free_ns_words'] = list(ns_words)
@@ -671,6 +684,9 @@ def _concrete_by_module(spec):
 
 def inject_error(rng, spec, kind):
     """mutates spec so that construction must fail; returns a description or None if not applicable"""
+    for m_ in spec['modules']:
+        # tasks that inherit their declarations from another task's Meta would have to be mutated together with it: left out of error cases
+        m_['tasks'] = [t_ for t_ in m_['tasks'] if not t_.get('meta_base')]
     mods = _concrete_by_module(spec)
     pkg = spec['pkg']
     if kind == 'dangling':
@@ -766,6 +782,40 @@ def inject_error(rng, spec, kind):
 
 
 # ---- directed family: one pipeline mounted under two namespaces and consumed from both (train/valid pattern) ---------------
+
+def repeated_ns_spec(rng):
+    """-> (spec, root): a namespace word REPEATED along a mount path (W::W::leaf next to W::leaf) and contexts addressing `W::leaf` either
+    from the root (absolute) or from a context mounted `as W` (relative: W::W::leaf). No task names an input, so the only question is which
+    instance gets which override."""
+    pkg = 'labr_' + ''.join(rng.choice('abcdefghijklmnop') for _ in range(8))
+    w = rng.choice(['base', 'n', 'tr', 'train'])
+    leaf = {'cls': 'Leaf', 'data_kind': 'json_dict', 'params': [{'name': 'p', 'access': rng.choice(['args', None])}], 'inputs': []}
+    mid = {'cls': 'Mid', 'data_kind': 'json_dict', 'params': [{'name': 'q', 'default': 1}], 'inputs': []}
+    v0 = rng.choice([1, 'a', [1, 2], {'k': 1}])
+    v1 = same_type_value(rng, v0)
+    v2 = same_type_value(rng, v1)
+    files = {
+        'cfg/leaf.json': {'parts': {'': {'tasks': [f'{pkg}.leafm.*'], 'values': {'p': v0}, 'uses': []}}},
+        'cfg/b.yaml': {'parts': {'': {'tasks': [f'{pkg}.midm.*'], 'values': {'q': 2}, 'uses': [{'file': 'cfg/leaf.json', 'as': 'leaf'}]}}},
+        'cfg/a.json': {'parts': {'': {'tasks': [], 'values': {}, 'uses': [{'file': 'cfg/b.yaml', 'as': w}, {'file': 'cfg/leaf.json', 'as': 'leaf'}]}}},
+        'cfg/top.json': {'parts': {'': {'tasks': [], 'values': {}, 'uses': [{'file': 'cfg/a.json', 'as': w}]}}},
+    }
+    spec = {'pkg': pkg, 'modules': [{'name': 'leafm', 'package': None, 'tasks': [leaf]}, {'name': 'midm', 'package': None, 'tasks': [mid]}],
+            'files': files, 'context_files': {}, 'placeholders': None, 'fnames': ['cfg/top.json', 'cfg/a.json', 'cfg/b.yaml', 'cfg/leaf.json'],
+            'free_ns_words': ['m', 'ab'], 'extra_mounts': [(1, 3, 'leaf')]}
+    how = rng.choice(['absolute', 'mounted', 'both', 'deep'])
+    sources = []
+    if how in ('absolute', 'both'):
+        sources.append({'kind': rng.choice(['dict', 'Context']), 'data': {'for_namespaces': {f'{w}::leaf': {'p': v1}}}, 'name': 'abs'})
+    if how in ('mounted', 'both'):
+        spec['context_files']['ctx/u.json'] = {'for_namespaces': {f'{w}::leaf': {'p': v2}}}
+        sources.append({'kind': rng.choice(['dict', 'Context']), 'data': {'uses': [{'file': 'ctx/u.json', 'as': w}]}, 'name': 'mnt'})
+    if how == 'deep':
+        spec['context_files']['ctx/u.json'] = {'for_namespaces': {f'{w}::{w}::leaf': {'p': v2}, f'{w}': {'q': 7}}}
+        sources.append({'kind': 'dict', 'data': {'for_namespaces': {f'{w}::{w}': {'q': 5}}, 'uses': [{'file': 'ctx/u.json'}]}, 'name': 'deep'})
+    root = {'file': 'cfg/top.json', 'context': sources, 'context_single': len(sources) == 1 and rng.random() < 0.5}
+    return spec, root
+
 
 def twin_spec(rng, feat=None):
     """-> (spec, roots): roots differ only in which mount gets which value (incl. the swapped assignment)"""
